@@ -139,7 +139,13 @@ func (p *Program) selectFunctions(prop string, pc *PropConfig) (ids []string, sw
 			}
 		}
 	}
+	// closures are verified where they run: inlined into the enclosing function or at the call site that
+	// receives them; only goroutine bodies are verified on their own
+	goTargets := p.goTargetFuncs()
 	for id := range set {
+		if fn := p.Funcs[id]; fn != nil && fn.Parent() != nil && !goTargets[fn] {
+			continue
+		}
 		ids = append(ids, id)
 	}
 	sort.Strings(ids)
